@@ -802,7 +802,9 @@ def run(ctx):
         if i % 5 == 0:
             ctx.sample(case, 'M')
     ctx.stratum('M', exhaustive=False)
-    ctx.reserve(0.8)
+    # cumulative shares of the wall budget for every stratum that has a floor in MIN (on an idle machine each one ends by itself;
+    # under load the earlier ones must not take the later ones with them)
+    ctx.reserve(0.42)
     b = BOUNDS[ctx.tier]
     alphabet = [(op, who) for op in OPS for who in (0, 1)]
     idx = 0
@@ -828,6 +830,7 @@ def run(ctx):
         if not done:
             break
     ctx.stratum('H', exhaustive=done)
+    ctx.reserve(0.54)
     # H1: one enforcer, the alphabet with faults (removal of the main file, unparseable main file), compared after the last step only
     idx1 = 0
     done1 = True
@@ -856,6 +859,7 @@ def run(ctx):
         if not done1:
             break
     ctx.stratum('H1', exhaustive=done1)
+    ctx.reserve(0.68)
     rnd = ctx.rnd
     every_f = max(1, b['nR'] // b['nF'])
     for i in range(b['nR'] // ctx.nshards + 1):
@@ -879,7 +883,7 @@ def run(ctx):
     ctx.stratum('R', exhaustive=False)
     ctx.stratum('F', exhaustive=False)
     # D0 / D: policy directories with several files, enforcers with and without `overwrite`, touches and edits of single files
-    ctx.reserve(0.9)
+    ctx.reserve(0.8)
     done0 = True
     for idx0, case in d0_cases():
         if not ctx.mine(idx0):
@@ -891,8 +895,9 @@ def run(ctx):
         if idx0 % 100 == 0:
             ctx.sample(case, 'D0')
     ctx.stratum('D0', exhaustive=done0)
+    ctx.reserve(0.9)
     for i in range(BOUNDS_D[ctx.tier]['nD'] // ctx.nshards + 1):
-        if ctx.expired():
+        if i >= 12 and ctx.expired():           # a guaranteed minimum per shard (floor cases.D)
             break
         tag = '%s.%d.%d' % (ctx.tier, ctx.shard, i)
         case = dir_case(ctx.sub_rnd('D', tag), tag)
@@ -906,7 +911,7 @@ def run(ctx):
     ctx.stratum('overlap', exhaustive=False)
     try:
         for i in range(OVERLAPS[ctx.tier]):
-            if ctx.expired():
+            if i >= 2 and ctx.expired():        # a guaranteed minimum per shard
                 break
             r = ctx.sub_rnd('O', ctx.tier, ctx.shard, i)
             check_overlap(ctx, dict(overlap=True, with_dep=r.random() < 0.85, dshape=r.randrange(24), force=r.random() < 0.3,
